@@ -91,6 +91,6 @@ def messages_equal(orig: t.Any, dec: t.Any, options: t.Any = None) -> t.Optional
     try:
         a1, a2 = A.absmsg(orig, options), A.absmsg(dec, options)
     except A.NotBytes as e:
-        return f"type:{e}"
+        return f"inconsistent-value:{e.tag}: {e}"
     d = diff_path(a1, a2)
     return d
